@@ -36,6 +36,12 @@ func ghost_wfile(w *bufio.Writer) *os.File { panic("ghost") }
 func ghost_wcount(w *bufio.Writer) int     { panic("ghost") }
 func ghost_encw(e *gob.Encoder) io.Writer  { panic("ghost") }
 
+// What a complete index file decodes to (the file store's contracts speak about it; declared here so
+// that the contracts of Create and Rename can say what happens to it).
+func ghost_idxIDs(p string) vcSeq[string] { panic("ghost") }
+func ghost_idxSeen(p string) vcSeq[bool]  { panic("ghost") }
+func ghost_idxName(p string) string       { panic("ghost") }
+
 // ghost_fcontent(p): the content of the file at p as an abstract token (C02).
 func ghost_fcontent(p string) vcTok { panic("ghost") }
 
@@ -59,9 +65,10 @@ func ghost_decpos(d *gob.Decoder) int        { panic("ghost") }
 
 // os.Create truncates: an existing file at that path is empty from this moment on.
 //@ ext os.Create(name string) (f *os.File, err error)
-//@   modifies ghost_exists(name), ghost_complete(name), ghost_items(name), ghost_fcontent(name)
+//@   modifies ghost_exists(name), ghost_complete(name), ghost_items(name), ghost_fcontent(name), ghost_idxIDs(name), ghost_idxSeen(name), ghost_idxName(name)
 //@   ensures err == nil ==> f != nil && vcFresh(f) && ghost_fpath(f) == name && ghost_exists(name) && !ghost_complete(name) && ghost_fcontent(name) == vcTokEmpty()
 //@   ensures err != nil ==> f == nil
+//@   ensures[failureChangesNothing] err != nil ==> ghost_exists(name) == old(ghost_exists(name)) && ghost_complete(name) == old(ghost_complete(name)) && ghost_items(name) == old(ghost_items(name))
 //@   attr fs-mutating=1
 
 //@ ext os.Open(name string) (f *os.File, err error)
@@ -73,23 +80,35 @@ func ghost_decpos(d *gob.Decoder) int        { panic("ghost") }
 //@   ensures vcFresh(names) || len(names) == 0
 
 // os.Remove / os.Rename are atomic.
+//@ ext os.IsNotExist(err error) (r bool)
+//@   pure
+
 //@ ext os.Remove(name string) (err error)
 //@   modifies ghost_exists(name), ghost_complete(name), ghost_items(name)
 //@   ensures err == nil ==> !ghost_exists(name)
+//@   ensures[notExistMeansAbsent] err != nil && os.IsNotExist(err) ==> !ghost_exists(name)
 //@   ensures err != nil ==> ghost_exists(name) == old(ghost_exists(name)) && ghost_complete(name) == old(ghost_complete(name)) && ghost_items(name) == old(ghost_items(name))
 //@   attr fs-mutating=1
 
 //@ ext os.Rename(oldpath string, newpath string) (err error)
-//@   modifies ghost_exists(oldpath), ghost_complete(oldpath), ghost_items(oldpath), ghost_exists(newpath), ghost_complete(newpath), ghost_items(newpath)
+//@   modifies ghost_exists(oldpath), ghost_complete(oldpath), ghost_items(oldpath), ghost_exists(newpath), ghost_complete(newpath), ghost_items(newpath), ghost_idxIDs(newpath), ghost_idxSeen(newpath), ghost_idxName(newpath)
 //@   ensures err == nil ==> !ghost_exists(oldpath) && ghost_exists(newpath) && ghost_complete(newpath) == old(ghost_complete(oldpath)) && ghost_items(newpath) == old(ghost_items(oldpath))
-//@   ensures err != nil ==> ghost_exists(newpath) == old(ghost_exists(newpath)) && ghost_complete(newpath) == old(ghost_complete(newpath)) && ghost_items(newpath) == old(ghost_items(newpath))
+//@   ensures[contentMoves] err == nil ==> ghost_idxName(newpath) == old(ghost_idxName(oldpath)) &&
+//@      (forall i int :: { vcSeqAt(ghost_idxIDs(newpath), i) } vcSeqAt(ghost_idxIDs(newpath), i) == old(vcSeqAt(ghost_idxIDs(oldpath), i))) &&
+//@      (forall i int :: { vcSeqAt(ghost_idxSeen(newpath), i) } vcSeqAt(ghost_idxSeen(newpath), i) == old(vcSeqAt(ghost_idxSeen(oldpath), i)))
+//@   ensures err != nil ==> ghost_exists(newpath) == old(ghost_exists(newpath)) && ghost_complete(newpath) == old(ghost_complete(newpath)) && ghost_items(newpath) == old(ghost_items(newpath)) && ghost_idxName(newpath) == old(ghost_idxName(newpath)) &&
+//@      (forall i int :: { vcSeqAt(ghost_idxIDs(newpath), i) } vcSeqAt(ghost_idxIDs(newpath), i) == old(vcSeqAt(ghost_idxIDs(newpath), i))) &&
+//@      (forall i int :: { vcSeqAt(ghost_idxSeen(newpath), i) } vcSeqAt(ghost_idxSeen(newpath), i) == old(vcSeqAt(ghost_idxSeen(newpath), i)))
 //@   attr fs-mutating=1
 
-// RemoveAll is not atomic: children disappear one by one (modelled by the caller's crash invariant
-// being checked on the state in which the directory entry itself may or may not exist any more).
+// RemoveAll is not atomic: the files below the directory disappear one by one, in no particular order.
+// The state it leaves behind — and every state a crash in the middle of it leaves behind, which is why
+// nothing more is promised even on success — is: nothing new exists; anything may be gone (that only
+// things below the directory go is not stated: no proof needs it).
 //@ ext os.RemoveAll(path string) (err error)
-//@   modifies ghost_exists(path)
+//@   modifies allof(ghost_exists)
 //@   ensures err == nil ==> !ghost_exists(path)
+//@   ensures[onlyRemoves] forall q string :: { ghost_exists(q) } ghost_exists(q) ==> old(ghost_exists(q))
 //@   attr fs-mutating=1
 
 //@ ext bufio.NewWriter(w io.Writer) (b *bufio.Writer)
